@@ -10,7 +10,10 @@ RULE = ('one case = one step of a random history; histories of OPEN (all modes, 
         'syntax), LOCK/UNLOCK (equal/contained/containing/partially overlapping/adjacent/disjoint/whole-file/'
         'inverted/out-of-range ranges relative to ranges used earlier in the history), GET/PUT (inside, at the '
         'edges of, just outside earlier ranges, or sequential), CLOSE/RESET over file numbers 1..3 (and invalid '
-        '0, 4) on two files of a temp-dir drive; plus direct call histories on a diskfiles.Locks object '
+        '0, 4) on two files of a temp-dir drive; a deterministic family: three handles on one file in all 64 '
+        'sequences of OPEN modes, the lock taken through each handle in turn and GET/PUT/LOCK/UNLOCK tried '
+        'through every other handle (thorough: all assignments of file numbers); plus direct call histories '
+        '(random and the same family) on a diskfiles.Locks object '
         '(including file number 0 and re-registration); non-trivial = the step reached the lock manager')
 EXPLANATION = ('theorems (PcbV.Props.C26) by induction over arbitrary statement histories of the model: held ranges '
                'pairwise disjoint, overlapping LOCK denied with 70, access to a record locked through another '
@@ -398,9 +401,51 @@ def gen_history(rng, max_files):
                      for c in cmds]
 
 
+def gen_multi(rng, max_files, n):
+    """All file numbers opened on the same file without sharing clauses (so every OPEN the code allows goes
+    through), the first often FOR OUTPUT/APPEND; then record locks, GET/PUT, LOCK/UNLOCK through all of them."""
+    nums = list(range(1, max_files + 1))
+    rng.shuffle(nums)
+    first = rng.choices(MODES, [15, 35, 25, 25])[0]
+    cmds = [('o', 0, nums[0], first, None, None)]
+    for k in nums[1:]:
+        cmds.append(('o', 0, k, rng.choices(MODES, [20, 5, 5, 70])[0], None, None))
+    used = []
+    while len(cmds) < n:
+        r = rng.random()
+        num = rng.choice(nums)
+        if r < 0.3:
+            kind, (s, e) = gen_range(rng, used)
+            if s is None and e is not None:
+                s = 1
+            if max(s or 0, e or 0) > 30:
+                s, e = rng.randint(1, 10), None
+            if (s, e) != (None, None) and lock_limits(s, e) != 'bad':
+                used.append((s, e))
+            cmds.append(('l', num, s, e))
+        elif r < 0.42:
+            s, e = rng.choice(used) if used and rng.random() < 0.8 else (None, None)
+            cmds.append(('u', num, s, e))
+        elif r < 0.95:
+            if used:
+                s0, e0 = rng.choice(used)
+                e0 = s0 if e0 is None else e0
+                lo, hi = min(s0, e0), max(s0, e0)
+                pos = rng.choice([lo, hi, rng.randint(lo, hi), max(1, lo - 1), hi + 1])
+            else:
+                pos = rng.randint(1, 12)
+            cmds.append(('g' if rng.random() < 0.6 else 'p', num, min(pos, 60)))
+        else:
+            k = rng.choice(nums)
+            cmds += [('c', k), ('o', 0, k, rng.choices(MODES, [20, 10, 10, 60])[0], None, None)]
+    return cmds
+
+
 def gen_history_raw(rng, max_files):
-    profile = rng.choices(['shared', 'default', 'mixed', 'writer'], [40, 25, 25, 10])[0]
+    profile = rng.choices(['shared', 'default', 'mixed', 'writer', 'multi'], [34, 22, 22, 8, 14])[0]
     n = rng.randint(6, 36)
+    if profile == 'multi':
+        return profile, gen_multi(rng, max_files, n + 6)
     cmds = []
     used = []          # ranges (statement bounds) used earlier
     lastpos = {}       # upper bound of the record pointer per number (keeps PUT small)
@@ -551,12 +596,59 @@ def dec_cmd(w):
     return (p[0], int(p[1]), o(p[2]))
 
 
+def handle_orders(rng, max_files, all_perms):
+    """(file numbers in OPEN order, OPEN modes) for every sequence of modes on up to three handles of one file;
+    quick tier: one PRNG-chosen assignment of file numbers per mode sequence, thorough: all of them."""
+    import itertools
+    nums = list(range(1, max_files + 1))[:3]
+    perms = list(itertools.permutations(nums))
+    for modes in itertools.product(MODES, repeat=len(nums)):
+        for perm in (perms if all_perms else [perms[rng.randrange(len(perms))]]):
+            yield perm, modes
+
+
+def multi_handle_family(rng, max_files, all_perms):
+    """Three handles on the same file in every order of OPEN modes (whatever OPEN accepts); a lock is taken
+    through each handle in turn and GET / PUT / LOCK / UNLOCK are tried through every other handle, then the
+    holder reads its own record and unlocks."""
+    for perm, modes in handle_orders(rng, max_files, all_perms):
+        cmds = [('o', 0, n, m, None, None) for n, m in zip(perm, modes)]
+        for holder in perm:
+            base = rng.choice([1, 2, 2, 5, 9])
+            whole = rng.random() < 0.2
+            cmds.append(('l', holder, None, None) if whole else ('l', holder, base, base + 1))
+            for other in perm:
+                if other != holder:
+                    cmds += [('g', other, base), ('p', other, base + 1), ('g', other, base + 2),
+                             ('l', other, base + 1, base + 2), ('u', other, base + 1, base + 2)]
+            cmds += [('g', holder, base), ('u', holder, None, None) if whole else ('u', holder, base, base + 1)]
+        yield 'multi-family', cmds
+
+
+def raw_multi_handle_family(rng, all_perms):
+    """The same class on diskfiles.Locks directly (read / write / read-write record access)."""
+    for perm, modes in handle_orders(rng, 3, all_perms):
+        script = [('o', 0, n, m, None, None) for n, m in zip(perm, modes)]
+        for holder in perm:
+            base = rng.choice([1, 2, 5])
+            whole = rng.random() < 0.2
+            script.append(('k', holder, None if whole else (base, base + 1)))
+            for other in perm:
+                if other != holder:
+                    script += [('ra', other, (base, base), 'R'), ('ra', other, (base + 1, base + 1), 'W'),
+                               ('ra', other, (base + 2, base + 2), 'R'), ('ra', other, (base + 1, base + 1), 'RW'),
+                               ('k', other, (base + 1, base + 2)), ('r', other, (base + 1, base + 2))]
+            script += [('ra', holder, (base, base), 'R'), ('r', holder, None if whole else (base, base + 1))]
+        yield script
+
+
 def session_level(ctx, n_hist):
     rng = ctx.rng
     impl = SessImpl()
     try:
         lines, outs, cases = [], [], []
         todo = [('fixed', h) for h in FIXED_HISTORIES]
+        todo += list(multi_handle_family(rng, impl.max_files, all_perms=not ctx.quick))
         for _ in range(n_hist):
             todo.append(gen_history(rng, impl.max_files))
         for profile, cmds in todo:
@@ -579,8 +671,10 @@ RAW_NAMES = {0: [b'A.DAT', b'a.dat', b'SUB\\A.DAT', b'A.dat'], 1: [b'B.DAT', b'b
 B = lambda v: None if v is None else v.encode()
 
 
-def raw_history(ctx, n_ops):
-    """Generate and execute a history on a fresh diskfiles.Locks; generation looks at the registered numbers."""
+def raw_history(ctx, n_ops, script=None):
+    """Generate and execute a history on a fresh diskfiles.Locks; generation looks at the registered numbers.
+    With `script` (a list of op tuples) the ops are taken from it instead of the PRNG; scripted ops on a file
+    number that is not registered (its open was refused) are skipped."""
     from pcbasic.basic.devices.diskfiles import Locks
     from pcbasic.basic.base import error
     rng = ctx.rng
@@ -602,37 +696,53 @@ def raw_history(ctx, n_ops):
             s, e = rng.randint(0, 12), rng.randint(0, 14)
         return (s, e)
 
-    for _ in range(n_ops):
+    for step_no in range(len(script) if script is not None else n_ops):
         before = held()
         reg = sorted(before)
-        r = rng.random()
-        case = {'level': 'raw', 'ops': ops}
+        sc = script[step_no] if script is not None else None
+        if sc is not None:
+            if sc[0] not in ('o', 'c') and sc[1] not in before:
+                continue
+            r = {'o': 0.0, 'c': 0.31, 'a': 0.4, 'ra': 0.5, 'k': 0.7, 'r': 0.9}[sc[0]]
+        else:
+            r = rng.random()
 
         def fail(key, what):
             report(ctx, key, {'level': 'raw', 'ops': list(ops)}, 'op %d %s: %s' % (len(ops), ops[-1], what))
 
-        if r < 0.3 or not reg:
+        if sc is not None and sc[0] == 'o':
+            _, fid, num, mode, acc, lt = sc
+        if sc is None and (r < 0.3 or not reg):
             fid = 0 if rng.random() < 0.8 else 1
             num = rng.choice([0, 1, 1, 2, 2, 3, 3, 4])
             mode = rng.choices(MODES, [15, 15, 10, 60])[0]
             lt = rng.choice([None, None, 'S', 'S', 'S', 'R', 'W', 'RW', ''])
             acc = rng.choice([None, None, 'R', 'W', 'RW', ''])
+        if (sc is not None and sc[0] == 'o') or (sc is None and (r < 0.3 or not reg)):
             ops.append('o:%d:%d:%s:%s:%s' % (fid, num, mode, acc or '-', lt or '-'))
             call = lambda: locks.open_file(rng.choice(RAW_NAMES[fid]), num, B(mode),
                                            {'S': b'SHARED'}.get(lt, B(lt)), B(acc))
             writers = [n for n, (f, _, m) in before.items() if f == fid and m in (b'O', b'A')]
             check = ('open', fid, num, mode, writers)
         elif r < 0.38:
-            num = rng.choice(reg + [4])
+            num = sc[1] if sc is not None else rng.choice(reg + [4])
             ops.append('c:%d' % num)
             call = lambda: locks.close_file(num)
             check = None
         elif r < 0.48:
-            num = rng.choice(reg + [0])
-            a = rng.choice(['R', 'W', 'RW'])
+            if sc is not None:
+                _, num, a = sc
+            else:
+                num = rng.choice(reg + [0])
+                a = rng.choice(['R', 'W', 'RW'])
             ops.append('a:%d:%s' % (num, a))
             call = lambda: locks.try_access(num, B(a))
             check = None
+        elif r < 0.66 and sc is not None:
+            _, num, rg, a = sc
+            ops.append('ra:%d:%d:%d:%s' % (num, rg[0], rg[1], a))
+            call = lambda: locks.try_record_access(num, rg[0], rg[1], B(a))
+            check = ('access', num, rg, a)
         elif r < 0.66:
             num = rng.choice(reg)
             rg = small_range()
@@ -647,20 +757,26 @@ def raw_history(ctx, n_ops):
             call = lambda: locks.try_record_access(num, rg[0], rg[1], B(a))
             check = ('access', num, rg, a)
         elif r < 0.86:
-            num = rng.choice(reg)
-            rg = small_range()
+            if sc is not None:
+                _, num, rg = sc
+            else:
+                num = rng.choice(reg)
+                rg = small_range()
             if rg is not None:
                 used.append(rg)
             ops.append('k:%d:%s:%s' % ((num,) + (('-', '-') if rg is None else rg)))
             call = lambda: locks.acquire_record_lock(num, *(rg or (None, None)))
             check = ('lock', num, rg)
         else:
-            num = rng.choice(reg)
-            mine = before[num][1]
-            if mine and rng.random() < 0.55:
-                rg = rng.choice(sorted(mine, key=lambda x: (x is not None, x)))
+            if sc is not None:
+                _, num, rg = sc
             else:
-                rg = small_range()
+                num = rng.choice(reg)
+                mine = before[num][1]
+                if mine and rng.random() < 0.55:
+                    rg = rng.choice(sorted(mine, key=lambda x: (x is not None, x)))
+                else:
+                    rg = small_range()
             ops.append('r:%d:%s:%s' % ((num,) + (('-', '-') if rg is None else rg)))
             call = lambda: locks.release_record_lock(num, *(rg or (None, None)))
             check = ('unlock', num, rg)
@@ -721,6 +837,12 @@ def raw_history(ctx, n_ops):
 
 def locks_level(ctx, n_hist):
     lines, outs, cases = [], [], []
+    for script in raw_multi_handle_family(ctx.rng, all_perms=True):
+        line, out = raw_history(ctx, 0, script)
+        ctx.count('raw-profile:multi-family')
+        lines.append(line)
+        outs.append(out)
+        cases.append({'level': 'raw', 'line': line})
     for _ in range(n_hist):
         line, out = raw_history(ctx, ctx.rng.randint(5, 40))
         lines.append(line)
@@ -732,7 +854,7 @@ def locks_level(ctx, n_hist):
 
 
 def run(ctx):
-    session_level(ctx, 250 if ctx.quick else 4000)
+    session_level(ctx, 210 if ctx.quick else 4000)
     ctx.log('session level done')
     locks_level(ctx, 1500 if ctx.quick else 40000)
 
